@@ -163,6 +163,9 @@ public:
             const auto v = slv.get_sat_core().value(bi->l);
             bs.push_back(label(a) + "." + xn + "=" + (v == smt::True ? "T" : v == smt::False ? "F" : "U"));
           }
+          else if (xn != RATIO_START && xn != RATIO_END && xn != RATIO_DURATION && xn != RATIO_AT)
+            if (const arith_item *ai = dynamic_cast<const arith_item *>(&*x); ai && ai->get_type().get_name() == "real" && !ai->l.vars.empty())
+              bs.push_back(label(a) + "." + xn + "=" + show_t(slv.arith_value(arith_expr(const_cast<arith_item *>(ai)))));
     if (!bs.empty())
     {
       std::sort(bs.begin(), bs.end());
